@@ -434,6 +434,21 @@ def reach_const(fa, start, limit=6000, env0=None, after_stmt=None, avoid=()):
                 if isinstance(x, tuple) and x[0] == "variant":
                     cont = (x[1] == "Result" and x[2] == 0) or (x[1] == "Option" and x[2] == 1)
                     envd[t["dest"]["l"]] = ("variant", "ControlFlow", 0 if cont else 1)
+            # `cond.then_some(v)` / `cond.then(f)` with a known condition; `opt.ok_or(..)` / `ok_or_else`
+            # with a known variant
+            cn = {strip_generics(x).rsplit("::", 1)[-1] for x in callee_paths(t)}
+            if cn & {"then_some", "then"} and t["args"] and any("bool" in x for x in callee_paths(t)):
+                k = op_const(t["args"][0])
+                pl = op_place(t["args"][0])
+                c = k["int"] if k is not None and "int" in k else \
+                    envd.get(pl["l"]) if pl is not None and not pl["p"] else None
+                if isinstance(c, int):
+                    envd[t["dest"]["l"]] = ("variant", "Option", 1 if c else 0)
+            if cn & {"ok_or", "ok_or_else"} and t["args"]:
+                pl = op_place(t["args"][0])
+                x = envd.get(pl["l"]) if pl is not None and not pl["p"] else None
+                if isinstance(x, tuple) and x[0] == "variant" and x[1] == "Option":
+                    envd[t["dest"]["l"]] = ("variant", "Result", 0 if x[2] == 1 else 1)
             # the error value `?` returns: from_residual always yields Err / None
             if any("from_residual" in x for x in callee_paths(t)):
                 dty = t.get("dest_ty") or ""
